@@ -1824,6 +1824,28 @@ class MMSEIASolver(IterativeIASolverBaseClass):
                         raise RuntimeError(msg)
                 # xxxxxxxxxxxxxxxxxxxxxxxxxxxxxxxxxxxxxxxxxxxxxxxxxxxxxxxxx
 
+                # xxxxxxxxxx Make sure the power constraint holds xxxxxxxxx
+                # The secant iterations of `newton` stop when two successive
+                # values of mu_i differ by less than an ABSOLUTE tolerance,
+                # which says nothing about the cost when the root is much
+                # smaller than that tolerance (weak channels). The norm of
+                # Vi decreases with mu_i and is lower than 1/mu_i (here
+                # Hii_herm_U has unit norm), so that the root lies between
+                # zero and 1/sqrt(P): if `newton` did not find it we find
+                # it by bracketing.
+                cost = func(mu_i, sum_term, Hii_herm_U, self.P[i])
+                if mu_i < 0 or cost > self.P[i] / 1e6:
+                    max_mu_i = 2.0 / np.sqrt(self.P[i])
+                    mu_i = optimize.brentq(  # pylint: disable= E1101
+                        func,
+                        min_mu_i,
+                        max_mu_i,
+                        args=(sum_term, Hii_herm_U, self.P[i]),
+                        xtol=1e-300,
+                        rtol=1e-12,
+                        maxiter=500)
+                # xxxxxxxxxxxxxxxxxxxxxxxxxxxxxxxxxxxxxxxxxxxxxxxxxxxxxxxxx
+
                 # Now that we have the best value for mu_i, lets calculate Vi
                 Vi = self._calc_Vi_for_a_given_mu(sum_term, mu_i, Hii_herm_U)
                 # Vi = self._calc_Vi_for_a_given_mu2(
